@@ -23,6 +23,7 @@ RULE = (
     "length 3 (quick) / 4 (thorough) over a 14-line alphabet x 5 versions. Non-trivial = a re-presentation after children/values existed, or a "
     "replaced child, or an error step whose node id differs from its child id, or >= 2 nodes interleaved; distinct = distinct case JSON."
     ' Round 6: all 256 node ids enumerated; read errors and clock ticks among the events.'
+    ' Round 7: every internal/stream type x payload 0/1/none followed by a new node appearing (no hidden switches).'
 )
 ASSUMPTIONS = [
     "battery payloads in the definite class (plain decimal, no .5 tie, 0-100); other spellings are accepted either way",
@@ -96,7 +97,8 @@ def _registry(draw) -> dict:
 
 def strategy(tier: str):
     send = st.builds(lambda n, c, t, v: ["send", [n, c, 1, 0, t, v], None], st.sampled_from(NODES), st.sampled_from(CHILDREN), st.sampled_from((0, 2, 49)), gen.short_payloads)
-    events = st.sampled_from((["save"], ["save"], ["reload"], ["session"], ["read_error", "read"], ["read_error", "failed"], ["tick", 3600]))  # the registry is saved / reloaded / the context re-entered meanwhile
+    events = st.sampled_from((["save"], ["save"], ["reload"], ["session"], ["read_error", "read"], ["read_error", "failed"], ["tick", 3600],
+                              ["flag", 1, "reboot", True], ["flag", 2, "reboot", True], ["flag", 3, "reboot", True], ["flag", 1, "reboot", False]))  # the registry is saved / reloaded / the context re-entered meanwhile
     ops = st.lists(gen.weighted((16, gen.with_ack(_line_strategy()).map(lambda line: ["rx", line])), (2, send), (1, events)), min_size=5, max_size=25)
     return st.fixed_dictionaries(
         {
@@ -106,6 +108,7 @@ def strategy(tier: str):
             "mode": st.sampled_from(("steps", "steps", "queue")),
             "listen_mode": st.sampled_from(("fresh", "persistent")),
             "ctx": st.sampled_from(("same", "same", "same", "copied", "thread")),
+            "tasks": st.sampled_from((False, False, True)),
             "debug_log": st.sampled_from((False, False, True)),
         }
     )
@@ -145,6 +148,13 @@ def enumerate_cases(tier: str):
                 lines = ["4;255;0;0;17;2.0\n", f"0;255;3;0;{mtype};{text}\n", f"4;255;3;1;{mtype};{text}\n", f"4;255;4;0;{mtype % 6};{text}\n",
                          "20;255;0;0;17;2.1.0\n", "20;1;0;0;6;c\n", "20;1;1;0;0;5\n", "20;255;3;0;0;77\n", "4;255;0;0;18;2.2.0\n", "4;2;0;0;3;r\n"]
                 yield {"version": version, "registry": {}, "ops": [["rx", line] for line in lines], "mode": "steps", "listen_mode": "persistent" if mtype % 2 else "fresh"}
+    # the application flags a node for reboot: what the node reports next is recorded like anything else
+    for version in (None, "1.4", "2.0", "2.2"):
+        lines = ["4;255;0;0;17;2.0\n", "4;1;0;0;6;t\n", "4;1;1;0;0;20\n", "4;255;3;0;11;sk\n", "4;255;3;0;0;55\n"]
+        after = ["4;1;1;0;0;21\n", "4;1;1;1;2;1\n", "4;2;1;0;0;x\n", "4;1;2;0;0;\n", "4;255;3;0;0;56\n", "4;1;1;0;0;22\n"]
+        for mode in ("fresh", "persistent"):
+            yield {"version": version, "registry": {}, "mode": "steps", "listen_mode": mode,
+                   "ops": [["rx", l] for l in lines] + [["flag", 4, "reboot", True]] + [["rx", l] for l in after] + [["flag", 4, "reboot", False], ["flag", 4, "reboot", True]] + [["rx", l] for l in after]}
     # the whole id space: every node id presents itself, reports and presents a child (ids 0 and 255 are ids like any other)
     for version in ("1.4", "2.2") if tier == "quick" else VERSIONS:
         for start in range(0, 256, 16):
